@@ -168,8 +168,29 @@ def check_mask_rules(p, mod, res):
         raise AnalysisIncomplete("%s: _get_input_degrees missing" % mod.name)
     r = [n for n in ast.walk(gid.node) if isinstance(n, ast.Return)]
     pn = gid.params()[0][0]
-    if len(r) == 1 and norm_text(r[0].value) in ("torch.arange(1, %s + 1)" % pn, "torch.arange(%s) + 1" % pn, "torch.arange(1, 1 + %s)" % pn):
+    forms = ("torch.arange(1, %s + 1)" % pn, "torch.arange(%s) + 1" % pn, "torch.arange(1, 1 + %s)" % pn, "torch.arange(1 + %s) - 0" % pn)
+
+    def resolved(e, depth=0):
+        """what a returned expression is: copies and memo-table reads looked through (a table entry is what every
+        store into that table in this function puts there, if they all agree)"""
+        while isinstance(e, ast.Call) and isinstance(e.func, ast.Attribute) and e.func.attr in ("clone", "detach", "contiguous", "long") and not e.args:
+            e = e.func.value
+        if isinstance(e, ast.Name) and depth < 4:
+            defs = [a.value for a in ast.walk(gid.node) if isinstance(a, ast.Assign) and any(isinstance(t, ast.Name) and t.id == e.id for t in a.targets)]
+            if len(defs) == 1:
+                return resolved(defs[0], depth + 1)
+        if isinstance(e, ast.Subscript) and isinstance(e.value, ast.Name) and depth < 4:
+            stores = [a.value for a in ast.walk(gid.node) if isinstance(a, ast.Assign) and any(isinstance(t, ast.Subscript) and isinstance(t.value, ast.Name) and t.value.id == e.value.id and norm_text(t.slice) == norm_text(e.slice) for t in a.targets)]
+            if stores and len({norm_text(x) for x in stores}) == 1:
+                return resolved(stores[0], depth + 1)
+            return None
+        return e
+
+    vals = [resolved(x.value) if x.value is not None else None for x in r]
+    if r and all(v is not None and norm_text(v) in forms for v in vals):
         res.ok("%s DEG-IN: input degrees are 1..F" % mod.name)
+    elif r and any(v is None for v in vals):
+        res.undecide("%s:DEG-IN" % mod.name, "cannot resolve what _get_input_degrees returns")
     else:
         res.fail(Finding("DEG-IN", mod, gid.qualname, gid.node, "input degrees are not arange(1, F + 1)"))
 
@@ -1110,7 +1131,9 @@ def inv_ar_rule(ctx):
         raise AnalysisIncomplete("AutoregressiveTransform.inverse / forward missing")
 
     def mkobj():
-        return Obj({"autoregressive_net": SymFn("net", 1), "_elementwise_inverse": SymFn("einv", 2), "_elementwise_forward": SymFn("efwd", 2)})
+        # the class's own helper methods (a pass of the iteration extracted into a method) are evaluated from source
+        helpers = {nm: m.node for nm, m in ar.methods.items() if nm not in ("_elementwise_inverse", "_elementwise_forward", "__init__")}
+        return Obj({"autoregressive_net": SymFn("net", 1), "_elementwise_inverse": SymFn("einv", 2), "_elementwise_forward": SymFn("efwd", 2)}, helpers)
 
     x, cx = ("x",), ("ctx",)
 
